@@ -10,6 +10,7 @@ def pool : Nat := 4
 def parseQ (tok : String) : Option QOp :=
   match tok.splitOn ":" with
   | ["mk", i, t] => do pure (.make (← i.toNat?) (← t.toNat?))
+  | ["mkx", i, t] => do pure (.makeFails (← i.toNat?) (← t.toNat?))
   | ["mv", i, j] => do pure (.mov (← i.toNat?) (← j.toNat?))
   | ["rs", i] => do pure (.reset (← i.toNat?))
   | ["nul", i] => do pure (.reset (← i.toNat?))
